@@ -25,10 +25,39 @@ type scen struct {
 	Opt   world.Options `json:"options"`
 	After map[int]int   `json:"after,omitempty"` // seed index -> insert only after that many finishes
 	P     int           `json:"p"`
+	Stop  bool          `json:"stop,omitempty"` // a stop request (the real stop order) is a thread of the scenario
+}
+
+// oracleStop: with a stop request somewhere in the run not every seed finishes, but one that is
+// reported finished is reported once, and only with its whole tree done (a seed that is not finished
+// stays in the queue and is crawled again; a finished one is deleted from it for good).
+func oracleStop(s *scen, w *world.World) error {
+	count := map[string]int{}
+	for _, m := range w.Finished {
+		count[m.ID]++
+		if count[m.ID] > 1 {
+			return fmt.Errorf("exactly-once: seed %s was reported finished %d times", m.ID, count[m.ID])
+		}
+		var bad []string
+		m.Item.Traverse(func(n *models.Item) {
+			switch n.GetStatus() {
+			case models.ItemFresh, models.ItemPreProcessed, models.ItemArchived:
+				bad = append(bad, n.GetURL().Raw+"="+n.GetStatus().String())
+			}
+		})
+		if len(bad) > 0 {
+			return fmt.Errorf("finished-too-early: %s was reported finished around the stop while nodes still await work: %v", m.ID, bad)
+		}
+	}
+	return nil
 }
 
 func (s *scen) name() string {
-	return fmt.Sprintf("%s w%d a%d retry%d redirect%d", s.Def.Name, s.Opt.Workers, s.Opt.MaxConcurrentAssets, s.Opt.MaxRetry, s.Opt.MaxRedirect)
+	n := fmt.Sprintf("%s w%d a%d retry%d redirect%d", s.Def.Name, s.Opt.Workers, s.Opt.MaxConcurrentAssets, s.Opt.MaxRetry, s.Opt.MaxRedirect)
+	if s.Stop {
+		n += " +stop"
+	}
+	return n
 }
 
 func scenario(s *scen) *vsched.Scenario {
@@ -46,21 +75,39 @@ func scenario(s *scen) *vsched.Scenario {
 	}
 	sc.Body = func() {
 		w.Start()
+		if s.Stop {
+			go func() { // stop request: after the drain by default, every deviation moves it earlier
+				vsched.Point("h:stop requested", nil)
+				w.Stop()
+			}()
+		}
 		for i, u := range s.Def.Seeds {
 			if n, ok := s.After[i]; ok {
 				w.WaitFinished(n)
 			}
 			if err := w.Insert(fmt.Sprintf("seed%d", i), u); err != nil {
+				if s.Stop {
+					return // frozen reactor: the source gives up
+				}
 				panic(fmt.Sprintf("insert of seed %d refused: %v", i, err))
 			}
 		}
 	}
-	sc.Done = func(x *vsched.Exec) bool { return w.FinishedCount() >= len(s.Def.Seeds) }
+	if !s.Stop {
+		sc.Done = func(x *vsched.Exec) bool { return w.FinishedCount() >= len(s.Def.Seeds) }
+	} else {
+		sc.OKEnds = []string{vsched.EndQuiescent, vsched.EndDeadlock, vsched.EndDone, vsched.EndHorizon}
+	}
 	sc.Idle = world.IsIdlePoint
 	sc.Visible = world.VisibleDefault
 	sc.Horizon = 30 * time.Minute
 	sc.DelayBounding = true
-	sc.AtEnd = func(x *vsched.Exec) error { return oracle(s, w) }
+	sc.AtEnd = func(x *vsched.Exec) error {
+		if s.Stop {
+			return oracleStop(s, w)
+		}
+		return oracle(s, w)
+	}
 	sc.Outcome = func(x *vsched.Exec) string {
 		var fs []string
 		for _, m := range w.Finished {
@@ -185,6 +232,14 @@ func scenarios(tier string) []scen {
 			}
 			out = append(out, s2)
 		}
+	}
+	// the same sites with a stop request placed anywhere in the run
+	for _, name := range [][]string{{"page", "bin", "redir"}, {"redir1", "m3u8", "flaky"}, {"page", "cut", "redirB"}} {
+		d := world.MkSite("seed="+name[0]+" assets="+name[1]+"+"+name[2], name[0], name[1:])
+		out = append(out, scen{Def: d, Opt: world.Options{Workers: 1, MaxConcurrentAssets: 1, MaxRetry: 1, MaxRedirect: 2}, P: sweepP, Stop: true})
+	}
+	for _, ds := range world.DepthSites()[:2] {
+		out = append(out, scen{Def: ds.Def, Opt: world.Options{Workers: 1, MaxConcurrentAssets: 2, MaxRetry: 1, MaxRedirect: 2}, P: sweepP, Stop: true})
 	}
 	return out
 }
